@@ -34,6 +34,7 @@ namespace sim
     std::vector<double> comp_min, comp_max;
     bool comp_present = false;
     bool grains_present = false;
+    bool sole_grains_model = false;           // no other grains model anywhere in the file
   };
 
   struct GenWorld
@@ -68,6 +69,7 @@ namespace sim
   bool gen_c01(uint64_t seed, uint64_t run, const std::string &tier, Scenario &s);
   bool gen_c07(uint64_t seed, uint64_t run, const std::string &tier, Scenario &s);
   bool gen_c12(uint64_t seed, uint64_t run, const std::string &tier, Scenario &s);
+  bool gen_c12_cold(uint64_t seed, uint64_t run, const std::string &tier, Scenario &s);
   bool gen_c14(uint64_t seed, uint64_t run, const std::string &tier, Scenario &s);
   bool gen_c15(uint64_t seed, uint64_t run, const std::string &tier, Scenario &s);
   bool gen_c16(uint64_t seed, uint64_t run, const std::string &tier, Scenario &s);
